@@ -223,6 +223,10 @@ func handleExceptionSignal(vm *r.VM, blockModule *r.Module, catchBlock []*syntax
 				rtnValue := vm.GetReturnValue()
 				vm.PopCallFrame()
 
+				// a handler without 输出 yields 空
+				if rtnValue == nil {
+					rtnValue = value.NewNull()
+				}
 				return rtnValue, nil
 			}
 			return nil, err
